@@ -15,14 +15,16 @@ SUFFIXES_THOROUGH = [b"", b"\xaa", K.UNBIND_PDU]
 def check_one(m: t.Any, suffixes: t.List[bytes]) -> t.Optional[t.Tuple[str, str]]:
     """-> None if the property holds for m, else (key, description)."""
     try:
-        b = m.pack(K.OPTS)
+        with K.guard(10):
+            b = m.pack(K.OPTS)
     except BaseException as e:
         return (f"pack-raises:{K.exc_key(e)}", f"pack raised {type(e).__name__}: {e}")
     if type(b) is not bytes:
         return ("pack-type", f"pack returned {type(b).__name__}")
     for sfx in suffixes:
         try:
-            m2, rest = K.unpack(b + sfx)
+            with K.guard(10):
+                m2, rest = K.unpack(b + sfx)
         except BaseException as e:
             return (f"unpack-raises:{K.exc_key(e)}", f"decoding its own encoding raised {type(e).__name__}: {e}")
         if rest != sfx:
